@@ -415,7 +415,9 @@ impl<T: Eq + Hash> FrequentItemsSketch<T> {
     where
         T: Clone, // for self.hash_map.active_keys()
     {
-        if self.is_empty() {
+        // Only a sketch that has seen no weight is serialized in the empty form: a sketch whose
+        // counters were all purged still has a stream weight and an offset to preserve.
+        if self.stream_weight == 0 {
             let mut bytes = SketchBytes::with_capacity(8);
             bytes.write_u8(PREAMBLE_LONGS_EMPTY);
             bytes.write_u8(SERIAL_VERSION);
